@@ -1336,11 +1336,14 @@ class MeshRegion:
                 #         = (BR*cosBeta-BZ*sinBeta, 0, BZ*cosBeta+BR*sinBeta)
                 #           /(Bp*hy*cosBeta)
                 #         = (BR-BZ*tanBeta, 0, BZ+BR*tanBeta)/(Bp*hy)
+                # for bpsign=+1; in general the direction of Grad(x) relative to Bp
+                # carries bpsign
+                tanBeta_signed = self.bpsign * self.tanBeta
                 self.curl_bOverB_y = (
                     curl_bOverB_Rhat(self.Rxy, self.Zxy)
-                    * (BR(self.Rxy, self.Zxy) - BZ(self.Rxy, self.Zxy) * self.tanBeta)
+                    * (BR(self.Rxy, self.Zxy) - BZ(self.Rxy, self.Zxy) * tanBeta_signed)
                     + curl_bOverB_Zhat(self.Rxy, self.Zxy)
-                    * (BZ(self.Rxy, self.Zxy) + BR(self.Rxy, self.Zxy) * self.tanBeta)
+                    * (BZ(self.Rxy, self.Zxy) + BR(self.Rxy, self.Zxy) * tanBeta_signed)
                 ) / (self.Bpxy * self.hy)
 
             # Grad(z) = Grad(zeta) - Bt*hy/(Bp*R)*Grad(y) - I*Grad(x)
@@ -1503,11 +1506,13 @@ class MeshRegion:
         # cosBeta = delta_x.delta_psi
         self.cosBeta.centre = delta_x[0] * delta_psi[0] + delta_x[1] * delta_psi[1]
 
-        # Rotate delta_psi 90 degrees clockwise gives unit vector in e_y direction
-        delta_y = [delta_psi[1], -delta_psi[0]]
+        # Rotating delta_psi 90 degrees clockwise gives the unit vector in the direction
+        # of Bp; e_y points along bpsign*Bp. beta is measured from Grad(x) towards
+        # -e_y (the convention the metric and curvature expressions are written for),
+        # so sin(beta) = -e_x_hat.e_y_hat
+        delta_y = [self.bpsign * delta_psi[1], -self.bpsign * delta_psi[0]]
 
-        # sin(beta) = cos(pi/2 - beta) = e_x_hat.e_y_hat = delta_x.delta_y
-        self.sinBeta.centre = delta_x[0] * delta_y[0] + delta_x[1] * delta_y[1]
+        self.sinBeta.centre = -(delta_x[0] * delta_y[0] + delta_x[1] * delta_y[1])
 
         # for ylow points
         #################
@@ -1535,11 +1540,10 @@ class MeshRegion:
         # cosBeta = delta_x.delta_psi
         self.cosBeta.ylow = delta_x[0] * delta_psi[0] + delta_x[1] * delta_psi[1]
 
-        # Rotate delta_psi 90 degrees clockwise gives unit vector in e_y direction
-        delta_y = [delta_psi[1], -delta_psi[0]]
+        # unit vector in e_y direction, sin(beta) = -e_x_hat.e_y_hat as for centre
+        delta_y = [self.bpsign * delta_psi[1], -self.bpsign * delta_psi[0]]
 
-        # sin(beta) = cos(pi/2 - beta) = e_x.e_y = delta_x.delta_y
-        self.sinBeta.ylow = delta_x[0] * delta_y[0] + delta_x[1] * delta_y[1]
+        self.sinBeta.ylow = -(delta_x[0] * delta_y[0] + delta_x[1] * delta_y[1])
 
         self.tanBeta = self.sinBeta / self.cosBeta
 
